@@ -190,3 +190,7 @@ ben("c03-gs-lax-select-free", "C03", "nonlin_fun/_gradient_norm.py", "        u_
 ben("c16-mean-metric-take", "C16", "metrics/_utils.py", "    return jnp.mean(metric_per_sample, axis=0)", "    return jnp.sum(metric_per_sample, axis=0) / jnp.size(metric_per_sample)", "mean as sum / size")
 mut("c01-general-linear-polyval-total", "C01", "stepper/generic/_linear.py", "        linear_operator = sum(\n            jnp.sum(\n                c * (derivative_operator) ** i,\n                axis=0,\n                keepdims=True,\n            )\n            for i, c in enumerate(self.linear_coefficients)\n        )\n        return linear_operator", "        coefficients = jnp.asarray(self.linear_coefficients)[::-1]\n        total_derivative = jnp.sum(derivative_operator, axis=0, keepdims=True)\n        linear_operator = jnp.polyval(coefficients, total_derivative)\n        return linear_operator", "Horner on the axis-summed operator: cross terms (seeded S39)")
 ben("c01-general-linear-polyval-per-axis", "C01", "stepper/generic/_linear.py", "        linear_operator = sum(\n            jnp.sum(\n                c * (derivative_operator) ** i,\n                axis=0,\n                keepdims=True,\n            )\n            for i, c in enumerate(self.linear_coefficients)\n        )\n        return linear_operator", "        coefficients = jnp.asarray(self.linear_coefficients)[::-1]\n        linear_operator = jnp.sum(jnp.polyval(coefficients, derivative_operator), axis=0, keepdims=True)\n        return linear_operator", "Horner per axis, then summed: the documented symbol")
+
+# ------------------------------------------------------------------------------------------ mutation survey round 2b
+mut("c20-general-nonlinear-two-channels", "C20", "stepper/generic/_nonlinear.py", "            dt=dt,\n            num_channels=1,\n            order=order,", "            dt=dt,\n            num_channels=2,\n            order=order,", "a scalar stepper that suddenly expects two channels (survey survivor)", count=1)
+mut("c04-stepper-dx", "C04", "_base_stepper.py", "self.dx = domain_extent / num_points", "self.dx = domain_extent * num_points", "published grid spacing wrong (survey survivor)")
